@@ -1891,6 +1891,11 @@ func (ctx *RenderContext) ToString(val interface{}) string {
 	case []byte:
 		return string(v)
 	case fmt.Stringer:
+		// A nil pointer has no string form (calling a String method with a value
+		// receiver through it would panic)
+		if rv := reflect.ValueOf(v); rv.Kind() == reflect.Ptr && rv.IsNil() {
+			return ""
+		}
 		return v.String()
 	}
 
